@@ -308,7 +308,11 @@ bloom_filter_alloc<A> bloom_filter_alloc<A>::deserialize(std::istream& is, const
   if (bit_array == nullptr) {
     throw std::bad_alloc();
   }
-  read(is, bit_array, num_bytes);
+  is.read(reinterpret_cast<char*>(bit_array), num_bytes);
+  if (!is.good()) {
+    alloc.deallocate(bit_array, num_bytes);
+    throw std::runtime_error("error reading from std::istream");
+  }
 
   // pass to constructor
   return bloom_filter_alloc<A>(seed, num_hashes, is_dirty, true, false, num_longs << 6, num_bits_set, bit_array, nullptr, allocator);
